@@ -74,6 +74,8 @@ def lists(pe):
     out['mixture'] = [prim(pe, {'A|r1': 'c12', 'A|r2': 'ev'}, 'x0') * cv1, prim(pe, {'A|r2': 'od'}, 'x1', 'count'), prim(pe, {'B|r1': 'trA'}, 'x2') * cv3[1],
                       prim(pe, {'A|r1': 'sh'}, 'x3') + prim(pe, {'B|r1': 'trB'}, 'x4')]
     out['bare-name'] = [prim(pe, {'A': 'c8'}, 'bn0'), prim(pe, {'A': 'irr'}, 'bn1')]
+    out['tiny-and-huge'] = [prim(pe, {'A|r1': 'c12'}, 'th0', mean=2e-11, sigma=3e-12), prim(pe, {'A|r1': 'irr'}, 'th1', mean=-4e13, sigma=5e12),
+                            prim(pe, {'A|r1': 'c8'}, 'th2', mean=1e-11, sigma=1e-12) * pe.cov_Obs(1e-6, 1e-14, 'cvtiny')]
     out['long-ensemble-names'] = [prim(pe, {'ENS|r1': 'c12', 'ENS|r2': 'c8'}, 'ln0'), prim(pe, {'ENS|r2': 'irr'}, 'ln1'), prim(pe, {'OTHER|cfg7': 'ev'}, 'ln2')]
     # an observable that is constant on one whole replica (all 0, all 3) while it fluctuates on another one
     r = alpha.rng('c12', 'const-rep')
@@ -93,6 +95,13 @@ def pobs_lists(pe):
     out['count-zeros'] = [prim(pe, {'A|r1': 'c12', 'A|r2': 'c8'}, 'p3%d' % i, 'count') for i in range(2)]
     out['big'] = [prim(pe, {'A|r1': 'big'}, 'p4')]
     out['bare-name'] = [prim(pe, {'A': 'c8'}, 'p5')]
+    # data of very small / very large magnitude (no sample is exactly zero)
+    out['tiny'] = [prim(pe, {'A|r1': 'c12', 'A|r2': 'c8'}, 'p6%d' % i, mean=(1 + i) * 1e-11, sigma=3e-12) for i in range(2)]
+    out['huge'] = [prim(pe, {'A|r1': 'c12'}, 'p7', mean=3e14, sigma=1e13)]
+    # a DERIVED observable on replicas of different length and different means: its central value f(<x>) is not the weighted
+    # mean of its replica means f(<x>_r)
+    base = prim(pe, {'A|r1': 'c12', 'A|r2': 'c5'}, 'p8', mean=1.0, sigma=0.3)
+    out['derived-replicas'] = [np.log(base * base + 0.5)]
     return out
 
 
@@ -168,8 +177,8 @@ MODES = [True, None, False, 1, 'r', 2, 0]
 
 def build(tier, seed):
     cases = [{'kind': 'dobs', 'list': k} for k in ['single', 'same-layout', 'nested', 'interleaved', 'disjoint', 'replica-subsets', 'two-ensembles',
-                                                   'cov', 'cov-shared', 'count-zeros', 'sample-equals-mean', 'big-strided', 'mixture', 'bare-name', 'constant-on-replica', 'long-ensemble-names']]
-    cases += [{'kind': 'pobs', 'list': k} for k in ['single', 'three', 'replicas', 'count-zeros', 'big', 'bare-name']]
+                                                   'cov', 'cov-shared', 'count-zeros', 'sample-equals-mean', 'big-strided', 'mixture', 'bare-name', 'constant-on-replica', 'long-ensemble-names', 'tiny-and-huge']]
+    cases += [{'kind': 'pobs', 'list': k} for k in ['single', 'three', 'replicas', 'count-zeros', 'big', 'bare-name', 'tiny', 'huge', 'derived-replicas']]
     # pobs files whose observables differ in their configuration lists / replica sets: the format has one configuration
     # column per replica, so such a list is either refused on export or comes back faithfully - never re-labelled
     cases.append({'kind': 'pobs-pairs'})
